@@ -412,6 +412,30 @@ func (r *runner) byteSweep() {
 			seqs = append(seqs, string([]byte{byte(b1), byte(b2)}))
 		}
 	}
+	// number tokens: every string of <= 4 symbols over {'.', '0', '5'} in the number position of the
+	// same kind of frames (Number ::= Digits ('.' Digits?)? | '.' Digits)
+	var nums []string
+	var gen func(p string, n int)
+	gen = func(p string, n int) {
+		if p != "" {
+			nums = append(nums, p)
+		}
+		if n == 4 {
+			return
+		}
+		for _, a := range []string{".", "0", "5"} {
+			gen(p+a, n+1)
+		}
+	}
+	gen("", 0)
+	for _, q := range nums {
+		if !r.c.Owns("num" + q) {
+			continue
+		}
+		for _, f := range [][2]string{{"", ""}, {"a = ", ""}, {"", " + 1"}, {"a[", " < 1]"}, {"1 + ", ""}, {"-", ""}, {"../a * ", ""}, {"concat(", ", 'x')"}} {
+			r.one("expr", []string{f[0] + q + f[1]}, "")
+		}
+	}
 	for _, q := range seqs {
 		if r.c.Expired() {
 			return
